@@ -91,6 +91,7 @@ int main(int argc, char** argv) {
     else if (tag == "G") { std::string kh, vh; ss >> kh >> vh; cur.ecomp[ccomp].groups[unhex(kh == "-" ? "" : kh)] = unhex(vh == "-" ? "" : vh); }
     else if (tag == "END") vecs.push_back(cur);
   }
+  vecs.reserve(vecs.size() + 512);   // hand-picked inputs are appended below while pointers to the vectors are held
   unsigned long c15 = 0, c15bad = 0, c14 = 0, c14bad = 0;
   auto fail15 = [&](const Vec& v, const std::string& what) { c15bad++; if (c15bad <= 6) printf("UPVEC-FAIL C15 vector#%d %s\n", v.idx, what.c_str()); };
   auto fail14 = [&](const Vec& v, const std::string& what) { c14bad++; if (c14bad <= 6) printf("UPVEC-FAIL C14 vector#%d %s\n", v.idx, what.c_str()); };
@@ -140,6 +141,36 @@ int main(int argc, char** argv) {
       }
     }
     normal.emplace_back(&v, std::move(*p)); forced.emplace_back(&v, std::move(*q));
+  }
+  // hand-picked PATTERNS the corpus lacks (every scheme class as a literal protocol in front of a structured pathname, the
+  // same with the protocol as a group / alternation, opaque-path schemes, ignoreCase); they take part in the cross
+  // product below (normal vs forced-regexp compilation, test() vs exec()) but carry no expectation of their own
+  {
+    static const char* protos[] = {"file", "http", "https", "ws", "wss", "ftp", "data", "foo", "(file)", "(https)", "http{s}?", "*"};
+    static const char* paths[] = {"/:name", "/docs/*?", "/:a/:b", "/a/*", ":x", "/", "*", "/:name?"};
+    static std::vector<Vec> extra_patterns; extra_patterns.reserve(256);
+    int id = 300000;
+    for (auto pr : protos) for (auto pa : paths) for (int ic = 0; ic < 2; ic++) {
+      Vec w; w.idx = id++; w.pat.init.protocol = pr; w.pat.init.pathname = pa; if (ic) { w.has_opt = true; w.ignore_case = true; }
+      extra_patterns.push_back(w);
+    }
+    for (auto& w : extra_patterns) {
+      ada::url_pattern_verif_force_regexp = false; auto p = build(w);
+      ada::url_pattern_verif_force_regexp = true; auto q = build(w);
+      ada::url_pattern_verif_force_regexp = false;
+      c14++;
+      if (bool(p) != bool(q)) { fail14(w, "construction outcome depends on the execution mode"); continue; }
+      if (!p) continue;
+      normal.emplace_back(&w, std::move(*p)); forced.emplace_back(&w, std::move(*q));
+    }
+    static const char* more_inputs[][2] = {{"file:///foo", nullptr}, {"file:///docs/a/b", nullptr}, {"file:///C:/x/y", nullptr}, {"data:text/plain,hi", nullptr}, {"foo:bar/baz", nullptr},
+      {"https://example.com/a/b", nullptr}, {"ftp://h/a/b/c", nullptr}, {"ws://h/", nullptr}, {"foo://h/a", nullptr}, {"FILE:///foo", nullptr}};
+    static std::vector<Vec> mi; mi.reserve(32);
+    for (auto& e : more_inputs) { Vec w; w.idx = 400000 + int(&e - more_inputs); w.has_input = true; w.in.is_str = true; w.in.s = e[0]; mi.push_back(w); }
+    { Vec w; w.idx = 400100; w.has_input = true; w.in.init.protocol = "file"; w.in.init.pathname = "/x/y"; mi.push_back(w); }
+    { Vec w; w.idx = 400101; w.has_input = true; w.in.init.protocol = "file"; w.in.init.pathname = "/foo"; mi.push_back(w); }
+    { Vec w; w.idx = 400102; w.has_input = true; w.in.init.protocol = "data"; w.in.init.pathname = "text/plain"; mi.push_back(w); }
+    for (auto& w : mi) vecs.push_back(w);
   }
   // hand-picked (input, base) pairs the corpus lacks: inputs with a scheme of their own that are still relative to the
   // base, unparsable / empty bases, relative references of every kind, credentials and ports
